@@ -10,10 +10,10 @@ B = "at most 3 records, names of 1..2 characters over {a,b}, addresses symbolic;
 GROUPS = [
     Group(name="C11/append_lookup_iterate.pool20[bounded]", unity="C11/u_sym.cpp", entry="h_sym", functions=F, defines=["SCN=1", "POOL=20"], unwind=8, checks=CH, timeout=3000, mem_gb=28, tier="thorough",
           bounded=B % "re-#defined to 20 bytes so that the second record is placed in a second pool"),
-    Group(name="C11/scope_shadowing.pool20[bounded]", unity="C11/u_sym.cpp", entry="h_sym", functions=F, defines=["SCN=2", "POOL=20"], unwind=8, checks=CH, timeout=2400, mem_gb=28, bounded=B % "re-#defined to 20 bytes (one record per pool); names of one character"),
+    Group(name="C11/scope_shadowing.pool20[bounded]", unity="C11/u_sym.cpp", entry="h_sym", functions=F, defines=["SCN=2", "POOL=20"], unwind=8, checks=CH, timeout=2400, mem_gb=19, bounded=B % "re-#defined to 20 bytes (one record per pool); names of one character"),
     Group(name="C11/scope_isolation.pool20[bounded]", unity="C11/u_sym.cpp", entry="h_sym", functions=F, defines=["SCN=4", "POOL=20"], unwind=8, checks=CH, timeout=3000, mem_gb=28, tier="thorough", bounded=B % "re-#defined to 20 bytes (one record per pool); names of one character"),
-    Group(name="C11/set_source_order.pool20[bounded]", unity="C11/u_sym.cpp", entry="h_sym", functions=F, defines=["SCN=3", "POOL=20"], unwind=8, checks=CH, timeout=2400, mem_gb=28, bounded=B % "re-#defined to 20 bytes (one record per pool); names of one character"),
-    Group(name="C11/set_vs_label_lock.pool20[bounded]", unity="C11/u_sym.cpp", entry="h_sym", functions=F, defines=["SCN=5", "POOL=20"], unwind=8, checks=CH, timeout=2400, mem_gb=28, bounded=B % "re-#defined to 20 bytes (one record per pool); names of one character"),
+    Group(name="C11/set_source_order.pool20[bounded]", unity="C11/u_sym.cpp", entry="h_sym", functions=F, defines=["SCN=3", "POOL=20"], unwind=8, checks=CH, timeout=2400, mem_gb=19, bounded=B % "re-#defined to 20 bytes (one record per pool); names of one character"),
+    Group(name="C11/set_vs_label_lock.pool20[bounded]", unity="C11/u_sym.cpp", entry="h_sym", functions=F, defines=["SCN=5", "POOL=20"], unwind=8, checks=CH, timeout=2400, mem_gb=19, bounded=B % "re-#defined to 20 bytes (one record per pool); names of one character"),
 ]
 LEVEL = "other"
 TRUSTED = ["malloc succeeds"]
